@@ -204,9 +204,15 @@ func (c *Classifier) match(in io.Reader) (Results, error) {
 			out = append(out, candidates[i])
 		}
 	}
+	// With a threshold of 0 every document passes the first pass, even for an
+	// input without a single word, so there may be no last token to ask.
+	totalLines := 0
+	if len(id.Tokens) > 0 {
+		totalLines = id.Tokens[len(id.Tokens)-1].Line
+	}
 	return Results{
 		Matches:         out,
-		TotalInputLines: id.Tokens[len(id.Tokens)-1].Line,
+		TotalInputLines: totalLines,
 	}, nil
 }
 
